@@ -114,4 +114,73 @@ Definition equal (a b : value) : tri bool :=
       end
     end.
 
+(* fmt.Sprint of a value as toString uses it: slices as [a b], maps as map[k:v ...] with keys in
+   fmt's sorted order (modelled when all keys have one basic kind), nested to any depth *)
+Definition key_leb (a b : value) : option bool :=
+  match a, b with
+  | VInt x, VInt y => Some (Z.leb x y)
+  | VStr x, VStr y => Some (String.leb x y)
+  | VBool x, VBool y => Some (implb x y)
+  | _, _ => None
+  end.
+
+Fixpoint insert_key (x : value * string) (l : list (value * string)) : option (list (value * string)) :=
+  match l with
+  | [] => Some [x]
+  | y :: r => match key_leb (fst x) (fst y) with
+              | Some true => Some (x :: l)
+              | Some false => option_map (cons y) (insert_key x r)
+              | None => None
+              end
+  end.
+
+Fixpoint sjoin (l : list string) : string :=
+  match l with
+  | [] => EmptyString
+  | [x] => x
+  | x :: r => (x ++ " " ++ sjoin r)%string
+  end.
+
+Fixpoint sprint (fuel : nat) (v : value) : tri string :=
+  match fuel with
+  | 0 => TMiss "sprint depth"
+  | S f =>
+    match v with
+    | VSlice l off n _ =>
+        (fix go (xs : list value) (acc : list string) : tri string :=
+           match xs with
+           | [] => TOk ("[" ++ sjoin (rev acc) ++ "]")%string
+           | x :: r => match sprint f x with TOk t => go r (t :: acc) | other => other end
+           end) (slice_elems st l off n) []
+    | VMap m =>
+        match nth_error (st_maps st) m with
+        | None => TMiss "dangling map"
+        | Some es =>
+            (fix go (xs : list (value * value)) (acc : list (value * string)) : tri string :=
+               match xs with
+               | [] => TOk ("map[" ++ sjoin (map snd acc) ++ "]")%string
+               | (k, x) :: r =>
+                   match sprint f k, sprint f x with
+                   | TOk tk, TOk tx =>
+                       match insert_key (k, (tk ++ ":" ++ tx)%string) acc with
+                       | Some acc' => go r acc'
+                       | None => TMiss "sprint of a map with keys of mixed kinds"
+                       end
+                   | TMiss w, _ | _, TMiss w => TMiss w
+                   | _, _ => TErr
+                   end
+               end) es []
+        end
+    | VFunc _ | VHost _ | VEnv _ => TMiss "sprint of a function or module (prints an address)"
+    | _ => to_string orc v
+    end
+  end.
+
+(* toString *)
+Definition to_string_st (v : value) : tri string :=
+  match v with
+  | VStr x => TOk x
+  | _ => sprint 24 v
+  end.
+
 End Equal.
